@@ -432,6 +432,13 @@ def lhs_axis_formula(p, expr, bb, i):
             return RF.atom("n")
         if isinstance(n, ast.Call) and attr_chain(n.func) == "torch.arange" and len(n.args) == 1 and dump(n.args[0]) == "self.n_points":
             return RF.atom("I")
+        if isinstance(n, ast.Call) and attr_chain(n.func) == "torch.linspace" and len(n.args) >= 2:
+            # all nodes of a grid with S points: lo + (hi - lo)/(S - 1) * I
+            steps = kwarg(n, "steps", 2)
+            if steps is not None:
+                lo, hi, S = ev.ev(n.args[0]), ev.ev(n.args[1]), ev.ev(steps)
+                return lo + (hi - lo) / (S - RF.const(1)) * RF.atom("I")
+            return None
         if isinstance(n, ast.Subscript) and isinstance(n.value, ast.Call) and attr_chain(n.value.func) == "torch.linspace" and dump(n.slice).replace(" ", "") in (":-1", ":self.n_points"):
             c = n.value
             steps = kwarg(c, "steps", 2)
@@ -445,6 +452,38 @@ def lhs_axis_formula(p, expr, bb, i):
     us = sorted(a for a in val.atoms() if a.startswith("U"))
     want = RF.atom("LO") + (RF.atom("HI") - RF.atom("LO")) / RF.atom("n") * (RF.atom("I") + RF.atom(us[0])) if len(us) == 1 else None
     return val, want
+
+
+def r6b_dependency_flags(repo: Repo, rep):
+    R = rep.rule("R-C11-6b", "a product is sampled with the volume-weighted acceptance exactly when the first factor depends on SOME variable of the second factor's space", floor=4,
+                 why="classifying a dependent product as constant draws the second factor's points uniformly, whatever the size of the fibre over them")
+    from ..absdom.listeval import Evaluator, UNKNOWN, Opaque
+    pd = repo.cls(f"{DOM}.domainoperations.product.ProductDomain")
+    fi = pd.methods.get("_check_variable_dependencies")
+    if fi is None:
+        rep.undecided(R, pd.module.relpath, pd.fq, "_check_variable_dependencies", "vanished")
+        return
+    rep.saw(fi)
+    from collections import OrderedDict
+    space_a = OrderedDict((("x", 1),))
+    space_b = OrderedDict((("t", 1), ("s", 1)))
+    for nec_a, want in ((set(), True), ({"t"}, False), ({"s"}, False), ({"t", "s"}, False), ({"u"}, True), ({"t", "u"}, False)):
+        def resolve(e, ev, f, nec_a=nec_a):
+            t = dump(e).replace(" ", "")
+            table = {"self.domain_a.space": space_a, "self.domain_b.space": space_b, "self.domain_a.necessary_variables": set(nec_a), "self.domain_b.necessary_variables": set(),
+                     "self.domain_a.space.variables": set(space_a), "self.domain_b.space.variables": set(space_b)}
+            if t in table:
+                return table[t]
+            if t.endswith(".__class__.__name__"):
+                return "Domain"
+            return None
+        fr = Evaluator(resolve).run(fi.node.body, {"self": Opaque("self")})
+        got = fr.attrs.get("self._is_constant", UNKNOWN)
+        label = f"first factor needs {sorted(nec_a) or 'nothing'}, second factor's space is (t, s)"
+        if got is UNKNOWN or not isinstance(got, bool):
+            rep.undecided(R, fi.site(), fi.fq, f"_is_constant evaluable ({label})", repr(got)[:60])
+            continue
+        rep.check(R, got == want, fi.site(), fi.fq, f"{label}: _is_constant == {want}", f"_is_constant = {got}", f"{sorted(nec_a)} -> {got}")
 
 
 def r8_gaussian(repo: Repo, rep):
@@ -470,6 +509,7 @@ def r8_gaussian(repo: Repo, rep):
 
 
 def run(repo: Repo, rep):
+    r6b_dependency_flags(repo, rep)
     r1_r2_radial(repo, rep)
     r3_arclength(repo, rep)
     r4_mirror(repo, rep)
